@@ -511,8 +511,10 @@ def gen_filters(rng, store, req):
     elif r < 0.22:    # type-guarded algorithm/length filter (does not reach the certificate crash)
         g = None
         if target is not None and target['alg'] is not None:
-            g = [['otype', OT(target['type']).name], gen_filter_matching(rng, rng.choice(['alg', 'len']), target)]
+            kind = rng.choice(['alg', 'len'])
+            g = [['otype', OT(target['type']).name], gen_filter_matching(rng, kind, target) or gen_filter(rng, kind, store)]
         fs = (g or [['otype', rng.choice(KEY_TYPES)], gen_filter(rng, rng.choice(['alg', 'len']), store)]) + fs[:2]
+    assert all(f is not None for f in fs), fs
     return fs
 
 
